@@ -772,3 +772,14 @@ package main
 //@   handler refreshRoleRequestingCertPath
 //@   atcall (*RuntimeState).parseRefreshRoleCertGenParams sets ghostParamsUserError bool (s2 *RuntimeState, authData2 *authInfo, r2 *http.Request, params *roleRequestingCertGenParams, userErr error, err2 error) :: userErr != nil && err2 == nil
 //@   atcall (*RuntimeState).writeFailureResponse requires (s2 *RuntimeState, w2 http.ResponseWriter, r2 *http.Request, code int, msg string) :: ghostParamsUserError ==> 400 <= code && code < 500   #C10.refresh-client-error-status @C10
+
+// ---- C15: while the primary cannot be reached, profiles come from the offline cache -----------------------------
+// The goroutine that asks the primary reports to the waiting request only what the query itself returned; a
+// failure before the query (the primary cannot even prepare the statement) is left to the timeout, whose branch
+// reads the cache. (The goroutine's body is checked from the state of the go statement: "spawned checked".)
+//@ ghost var ghostPrimaryQueried bool
+//@ func (*RuntimeState).LoadUserProfile
+//@   spawned checked
+//@   atcall (*database/sql.DB).Prepare sets ghostPrimaryQueried bool (db *sql.DB, query string, st *sql.Stmt, err2 error) :: false
+//@   atcall (*database/sql.Row).Scan sets ghostPrimaryQueried bool (row *sql.Row, dest []any, err2 error) :: true
+//@   atcall chansend requires (msg loadUserProfileData) :: ghostPrimaryQueried   #C15.primary-reports-only-query-results @C15
